@@ -95,3 +95,38 @@ theorem failed_get_unchanged (v : Variant) (s s' : State) (p : Store.Pid) (ns : 
   · split at hs <;> simp at hs; exact hs.symm
 
 end Grog.C08
+
+namespace Grog.C08
+open Grog Grog.RemotePath
+
+/-- **Two configurations address the same remote namespace iff bucket, trimmed prefix and workspace identity agree.**
+    (workspace identities are non-empty and contain no "/": `sha256(root)[:16]-basename` or, for a GCS shared cache,
+    the basename alone) -/
+theorem same_namespace_iff (c1 c2 : Cfg) (h1 : cSlash ∉ c1.ws) (h2 : cSlash ∉ c2.ws) :
+    (∀ path key, objectOf c1 path key = objectOf c2 path key) ↔
+      c1.bucket = c2.bucket ∧ trim c1.pfx = trim c2.pfx ∧ c1.ws = c2.ws := by
+  constructor
+  · intro h
+    have h0 := h [] []
+    simp only [objectOf, buildPath, Prod.mk.injEq] at h0
+    obtain ⟨hb, hp⟩ := h0
+    have hfp : fullPrefix c1 = fullPrefix c2 := by
+      have : trim ([] : Bytes) = [] := by decide
+      simp only [this, List.append_nil, List.append_assoc] at hp
+      exact List.append_cancel_right hp
+    refine ⟨hb, ?_⟩
+    unfold fullPrefix at hfp
+    by_cases e1 : trim c1.pfx = [] <;> by_cases e2 : trim c2.pfx = []
+    · simp only [e1, e2, if_true] at hfp; exact ⟨by rw [e1, e2], hfp⟩
+    · simp only [e1, e2, if_true, if_false] at hfp
+      exact absurd (hfp ▸ (by simp : cSlash ∈ trim c2.pfx ++ [cSlash] ++ c2.ws)) h1
+    · simp only [e1, e2, if_true, if_false] at hfp
+      exact absurd (hfp.symm ▸ (by simp : cSlash ∈ trim c1.pfx ++ [cSlash] ++ c1.ws)) h2
+    · simp only [e1, e2, if_false] at hfp
+      exact split_last h1 h2 hfp
+  · rintro ⟨hb, hp, hw⟩ path key
+    simp [objectOf, buildPath, fullPrefix, hb, hp, hw]
+
+example : objectOf ⟨[98], [47, 112, 47], [119]⟩ [99] [107] = objectOf ⟨[98], [112], [119]⟩ [47, 99] [107, 47] := by decide
+
+end Grog.C08
